@@ -33,7 +33,16 @@ where
 
     fn parse(&mut self, tokenizer: &mut I) -> Result<Self::Output, Self::Error> {
         let original_position = tokenizer.get_position();
-        let left = self.left.parse(tokenizer)?;
+        let left = match self.left.parse(tokenizer) {
+            Ok(left) => left,
+            Err(err) => {
+                // a parser can fail softly after having consumed input (e.g. and_then)
+                if err.is_soft() {
+                    tokenizer.set_position(original_position);
+                }
+                return Err(err);
+            }
+        };
         match self.right.parse(tokenizer) {
             Ok(right) => Ok(self.combiner.combine(left, right)),
             Err(err) => {
